@@ -119,6 +119,7 @@ class UdpServerThread(Thread):
                 datagram = pkt.to_bytes(key)
             except Exception as e:
                 self.ctxt.log.exception("%s:%d unable to encode packet" % addr)
+                continue
 
             self.sock.sendto(datagram, addr)
 
